@@ -126,6 +126,8 @@ def ordering_case(draw):
         "gate_at": draw(st.sampled_from([0.0, 29.9, 30.0, 30.1, 45.0, 100.0])),
         "disc_at": draw(st.sampled_from([None, None, 29.9, 30.0, 30.1, 50.0])),
         "slow": draw(st.booleans()),
+        # stray bytes in a separate read after the request is complete (only delivered then)
+        "extra_at": draw(st.sampled_from([None, None, 0.2, 15.0, 29.95, 31.0, 70.0])),
     }
 
 
@@ -150,6 +152,8 @@ def run_ordering(case: dict):
         events.append((case["gate_at"], 1, "gate"))
         if case["disc_at"] is not None:
             events.append((case["disc_at"], 2, "disc"))
+        if case.get("extra_at") is not None and case["rest_at"] is not None and case["extra_at"] > case["rest_at"]:
+            events.append((case["extra_at"], 3, "extra"))
         events.sort()
         rest_delivered = False
         for t, _, what in events:
@@ -160,6 +164,8 @@ def run_ordering(case: dict):
                 rest_delivered = tr.feed(data[case["k"]:]) and not tr.closed_by_app()
             elif what == "gate":
                 sim.release_all()
+            elif what == "extra":
+                tr.feed(b"\r\n")
             else:
                 tr.peer_disconnect(None)
             await vloop.settle(4)
